@@ -91,6 +91,7 @@ def seq_cov(cases):
         "heap_walks": core.sum_field(cases, "walks"), "walk_blocks": core.sum_field(cases, "walk_blocks"), "conservation_checks": core.sum_field(cases, "conservation_checks"),
         "allocator_counters": core.merge_counts(cases, "mi"), "os_calls": core.merge_counts(cases, "os"),
         "variants": sorted(set(c.meta.get("variant") for c in cases)),
+        "threads_without_allocator_data_driving_the_api": core.sum_field(cases, "threads_without_allocator_data"),
     }
     return cov
 
